@@ -777,3 +777,251 @@ def c14(ctx):
         'thresholds, dyadic parameters landing exactly on bounds, min >= max, degenerate and negative ranges, cost criteria, one '
         'documented constraint violated in 12% of cases; distinct = (family, function, number of levels, criteria, verdict)',
         './check C14')
+
+
+# -------------------------------------------------------------------------------------------------
+import subprocess, urllib.request, socket
+
+
+class Server:
+    """the unmodified service (main() of httpClient) on a free port"""
+
+    def __init__(self, binary, mem_kb=4 * 1024 * 1024, race=False):
+        s = socket.socket()
+        s.bind(('127.0.0.1', 0))
+        self.port = s.getsockname()[1]
+        s.close()
+        env = dict(os.environ, PORT=str(self.port), GIN_MODE='release')
+        env.pop('VERIF_MODE', None)
+        self.p = subprocess.Popen(['bash', '-c', 'ulimit -v %d; exec "%s"' % (mem_kb, binary)] if not race else [binary],
+                                  env=env, stdout=subprocess.DEVNULL, stderr=subprocess.DEVNULL, cwd=core.WORK)
+        for _ in range(100):
+            try:
+                socket.create_connection(('127.0.0.1', self.port), timeout=0.2).close()
+                break
+            except OSError:
+                time.sleep(0.1)
+
+    def post(self, body, timeout=20):
+        """body: bytes; returns (status, bytes) or (None, error text)"""
+        req = urllib.request.Request('http://127.0.0.1:%d/api/decide' % self.port, data=body,
+                                     headers={'Content-Type': 'application/json'}, method='POST')
+        try:
+            with urllib.request.urlopen(req, timeout=timeout) as r:
+                return r.status, r.read()
+        except urllib.error.HTTPError as e:
+            return e.code, e.read()
+        except Exception as e:
+            return None, repr(e).encode()
+
+    def get(self, path, timeout=10):
+        try:
+            with urllib.request.urlopen('http://127.0.0.1:%d%s' % (self.port, path), timeout=timeout) as r:
+                return r.status, r.read()
+        except urllib.error.HTTPError as e:
+            return e.code, e.read()
+        except Exception as e:
+            return None, repr(e).encode()
+
+    def alive(self):
+        return self.p.poll() is None
+
+    def close(self):
+        try:
+            self.p.kill()
+            self.p.wait(timeout=5)
+        except Exception:
+            pass
+
+
+def verdict_of(status):
+    return 'accepted' if status == 200 else 'rejected' if status == 400 else str(status)
+
+
+@check('C02')
+def c02(ctx):
+    # the inventory of map iterations is regenerated from the source before the obligations are checked
+    g = subprocess.run([sys.executable, os.path.join(core.VERIF, 'tools', 'gen_mapranges.py')], capture_output=True, text=True,
+                       env=dict(os.environ, VERIF_REPO=core.REPO))
+    if g.returncode != 0:
+        ctx.violation('the map-iteration inventory could not be regenerated from the source', {'broken': 'tools/gen_mapranges.py', 'log': g.stderr[-2000:]},
+                      found_input=False)
+    else:
+        ctx.notes.append('inventory: ' + g.stdout.strip())
+    ctx.check_proofs()
+    rnd = ctx.rnd
+    n = n_cases(ctx, 120, 2500)
+    map_heavy = lambda r: gen.biased_request(r, method=r.choice(['choquetIntegral', 'owa', 'weightedSum', 'electreIII']),
+                                             names=[r.choice(['anchoring', 'criteriaOmission', 'criteriaConcealment', 'criteriaMixing'])], prob_mix=False)
+    reqs = [ctx.replay['request']] if ctx.replay and 'request' in ctx.replay else \
+        [rnd.choice([gen.any_request, gen.biased_request, map_heavy])(rnd) for _ in range(n)]
+    # some invalid ones: the verdict must repeat as well
+    for r in reqs[::9]:
+        if not ctx.replay:
+            r['criteria'] = r['criteria'] + [dict(r['criteria'][0])]
+    servers = [Server(ctx.binary) for _ in range(2 if ctx.quick else 4)]
+    try:
+        bodies = [json.dumps(r).encode() for r in reqs]
+        first = []
+        for i, (r, b) in enumerate(zip(reqs, bodies)):
+            st, out = servers[0].post(b)
+            first.append((st, out))
+            ctx.seen(req_signature(r, {'ok': st == 200, 'resp': json.loads(out) if st == 200 else None}), trivial=(st != 200))
+            ctx.count('first/' + verdict_of(st))
+            ctx.sample({'request': r, 'status': st}, limit=2)
+        # again in the same process after the whole history, interleaved with other requests; and in fresh processes
+        order = list(range(len(reqs)))
+        for k, srv in enumerate(servers):
+            rnd.shuffle(order)
+            for i in order:
+                st, out = srv.post(bodies[i])
+                ctx.count('repeat/%s' % ('same-process' if k == 0 else 'fresh-process'))
+                st0, out0 = first[i]
+                if verdict_of(st) != verdict_of(st0) or (st0 == 200 and out != out0):
+                    ctx.violation('the same request got a different answer (%s)' % ('same process, later' if k == 0 else 'another process'),
+                                  {'request': reqs[i], 'first': [st0, out0.decode('utf8', 'replace')[:3000]],
+                                   'again': [st, out.decode('utf8', 'replace')[:3000]]}, {'method': reqs[i].get('preferenceFunction')})
+    finally:
+        for s in servers:
+            s.close()
+    # the model (a function of the request and of the streams of its seeds) agrees with the service
+    sub = [r for r in reqs if True][:n_cases(ctx, 60, 600)]
+    ress, verd, logs = e2e.run_all(ctx.pipe, sub, 'C02')
+    bad = [(r, res, v) for r, res, v in zip(sub, ress, verd) if v and v[0] != 0 and not not_tied_aspect(r, res, v)]
+    if bad and not any(x[2] for x in ctx.violations):
+        r, res, v = bad[0]
+        ctx.violation('correspondence model/code broken on %d of %d requests (%s); repetition found no differing answer'
+                      % (len(bad), len(sub), e2e.AGREE_TEXT.get(v[0], v[0])),
+                      {'broken': 'correspondence decide (C02)', 'request': r, 'response': res.get('resp') or res.get('err')}, found_input=False)
+    return ctx.finish(
+        'each request is sent to the real service once, then again in the same process after all the others in another order, and to fresh '
+        'processes (Go randomises map iteration per range statement and per process); accepted answers must be byte-identical, verdicts equal; '
+        'requests: all methods and bias combinations, map-heavy ones over-weighted, every ninth made invalid; distinct = request shape x outcome',
+        './check C02')
+
+
+def c09_extra(ctx, req, res, info, v, facts):
+    if v[SCOL['C09later']] != 0:
+        ctx.violation('what the bias %s handed on / reported was altered by a later stage' % info['bias'].get('name'),
+                      {'request': req, 'bias': info['bias'], 'after_at_return': info['stage'].get('curAfter'),
+                       'after_at_end': info['stage'].get('curAfterFinal'), 'report_at_return': info['stage'].get('props'),
+                       'report_at_end': info['stage'].get('propsFinal')}, facts)
+
+
+@check('C09')
+def c09(ctx):
+    def allc(rnd):
+        """requests in which every known alternative is considered (internal slices are shared, not copied)"""
+        req = gen.biased_request(rnd, prob_mix=False)
+        req['choseToMake'] = [a['id'] for a in req['knownAlternatives']]
+        rnd.shuffle(req['choseToMake'])
+        return req
+
+    def cur_in(rnd):
+        req = gen.heuristic_request(rnd, rnd.choice(['majorityHeuristic', 'satisfactionHeuristic']))
+        req['methodParameters']['currentChoice'] = rnd.choice(req['choseToMake'])
+        return gen.add_biases(rnd, req, prob_mix=False)
+    gens = [(2, allc), (2, cur_in), (1, gen_biased())]
+    infos, verd, reqs, ress = stage_check(ctx, None, None, gens, 160, 3000, '', extra=c09_extra)
+    for req, res in zip(reqs, ress):
+        if res.get('requestUnchanged') is False:
+            ctx.violation('MakeDecision modified the request value it was handed', {'request': req}, {'method': req.get('preferenceFunction')})
+    # histories: the same Go values are reused across calls; every earlier result must stay intact; the answer must not depend on history
+    rnd = ctx.rnd
+    nh = n_cases(ctx, 40, 800)
+    for _ in range(nh):
+        pool = [rnd.choice([allc, cur_in, gen.any_request])(rnd) for _ in range(rnd.randint(1, 3))]
+        seq = [rnd.choice(pool) for _ in range(rnd.randint(2, 6))]
+        alone = {}
+        for r in pool:
+            k = json.dumps(r, sort_keys=True)
+            alone[k] = ctx.pipe.call({'op': 'decide', 'req': r})
+        for mode in ('shared', 'fresh'):
+            out = ctx.pipe.call({'op': 'hist', 'reqs': seq, 'mode': mode})
+            ctx.evaluations += 1
+            ctx.signatures.add(('hist', mode, len(seq), len(pool), tuple(x.get('preferenceFunction') for x in seq)))
+            ctx.count('history/' + mode)
+            if not out.get('ok'):
+                ctx.violation('history run failed in the harness', {'broken': 'hist op', 'answer': out}, found_input=False)
+                continue
+            for i, (r, c) in enumerate(zip(seq, out['calls'])):
+                want = alone[json.dumps(r, sort_keys=True)]
+                got = c['res']
+                same = (got.get('ok') == want.get('ok')) and (not got.get('ok') or got.get('resp') == want.get('resp'))
+                if not c['requestUnchanged']:
+                    ctx.violation('call %d of a history modified its request value (%s Go values)' % (i, mode),
+                                  {'history': seq, 'mode': mode, 'call': i}, {'method': r.get('preferenceFunction')})
+                if not c['earlierIntact']:
+                    ctx.violation('call %d of a history modified a result returned by an earlier call' % i,
+                                  {'history': seq, 'mode': mode, 'call': i}, {'method': r.get('preferenceFunction')})
+                if not same:
+                    ctx.violation('the answer to a request depends on the requests processed before it',
+                                  {'history': seq, 'mode': mode, 'call': i, 'alone': want.get('resp') or want.get('err'),
+                                   'in_history': got.get('resp') or got.get('err')}, {'method': r.get('preferenceFunction')})
+    ctx.sample({'history_of': 'sequences of 2-6 requests drawn from a pool of 1-3, replayed with shared Go request values and with fresh ones'}, limit=4)
+    return ctx.finish(
+        'traced bias sequences (all known alternatives considered; heuristics with currentChoice taken from choseToMake) with every state and '
+        'report dumped at return and again after the whole decision; request values deep-compared before/after; histories of 2-6 calls that '
+        'reuse the same decoded Go request values (spare slice capacity from the JSON decoder) with every earlier result deep-compared after '
+        'every later call and every answer compared with the answer to that request alone', './check C09')
+
+
+@check('C10')
+def c10(ctx):
+    g = subprocess.run([sys.executable, os.path.join(core.VERIF, 'tools', 'gen_effects.py')], capture_output=True, text=True,
+                       env=dict(os.environ, VERIF_REPO=core.REPO))
+    if g.returncode != 0:
+        ctx.violation('the shared-write summary could not be regenerated from the source', {'broken': 'tools/gen_effects.py', 'log': g.stderr[-2000:]},
+                      found_input=False)
+    else:
+        ctx.notes.append('write summary: ' + g.stdout.strip())
+    ctx.check_proofs()
+    rnd = ctx.rnd
+    pipes = [ctx.pipe]
+    race_pipe = None
+    if True:
+        try:
+            rb, _ = core.build_go(race=True)
+            race_pipe = core.Pipe(rb, mem_kb=64 * 1024 * 1024)
+            pipes.append(race_pipe)
+        except core.BuildError as e:
+            ctx.notes.append('race build unavailable: ' + str(e)[-300:])
+    try:
+        nb = n_cases(ctx, 40, 500)
+        for bi in range(nb):
+            k = rnd.choice([2, 8, 8, 32])
+            kind = rnd.choice(['identical', 'different', 'mixed-invalid'])
+            base = [rnd.choice([gen.any_request, gen.biased_request])(rnd) for _ in range(1 if kind == 'identical' else rnd.randint(2, 5))]
+            if kind == 'mixed-invalid':
+                bad = json.loads(json.dumps(base[0]))
+                bad['choseToMake'] = bad['choseToMake'] + ['no-such-alternative']
+                base.append(bad)
+            batch = [rnd.choice(base) for _ in range(k)]
+            seq = {}
+            for r in base:
+                seq[json.dumps(r, sort_keys=True)] = ctx.pipe.call({'op': 'decide', 'req': r})
+            for pi, pp in enumerate(pipes):
+                out = pp.call({'op': 'conc', 'reqs': batch}, timeout=120)
+                ctx.evaluations += 1
+                ctx.signatures.add(('conc', k, kind, tuple(sorted(set(x.get('preferenceFunction') for x in batch))), pi))
+                ctx.count('batch/%s/k=%d%s' % (kind, k, '/race' if pi else ''))
+                if not out.get('ok'):
+                    what = 'the process died or hung while serving concurrent requests' + (' (race detector build: a data race aborts the process)' if pi else '')
+                    ctx.violation(what, {'batch': batch, 'answer': out, 'race_build': bool(pi)}, {})
+                    continue
+                for r, got in zip(batch, out['results']):
+                    want = seq[json.dumps(r, sort_keys=True)]
+                    if got.get('ok') != want.get('ok') or (got.get('ok') and got.get('resp') != want.get('resp')):
+                        ctx.violation('a request answered concurrently differs from the same request answered alone',
+                                      {'batch': batch, 'request': r, 'alone': want.get('resp') or want.get('err'),
+                                       'concurrent': got.get('resp') or got.get('err')}, {'method': r.get('preferenceFunction')})
+            if bi < 2:
+                ctx.sample({'batch_kind': kind, 'k': k, 'requests': batch[:2]})
+    finally:
+        if race_pipe:
+            race_pipe.close()
+    return ctx.finish(
+        'batches of k in {2, 8, 32} requests started together on their own goroutines against the one set of registries of the process '
+        '(identical requests, different requests, valid next to panicking ones), each answer compared with the answer to the same request alone; '
+        'thorough tier: the same batches on a binary built with the Go race detector (a detected race aborts the process); distinct = (k, kind, '
+        'methods, build)', './check C10')
